@@ -169,10 +169,14 @@ class ReqPathRun(object):
                                      **plan.get('cluster_kw', {}))
             for k_, v_ in plan.get('cluster_attrs', {}).items():
                 setattr(cluster, k_, v_)
-            session = cluster.connect(wait_for_all_pools=True)
+            session = cluster.connect(plan.get('session_keyspace'), wait_for_all_pools=True)
         except Exception as e:
             self.connect_error = repr(e)
             return
+        if plan.get('use_delay'):
+            # from now on nodes take their time to answer USE (replacement connections of a session with a keyspace)
+            for nd in w.fc.nodes:
+                nd.use_delay = plan['use_delay']
         w.session = session
         sim = w.sim
         self.st['started'] = True
